@@ -53,7 +53,7 @@ func loadFacts(dir string) (*factSet, error) {
 		if strings.Contains(head, "go:build") && !strings.Contains(head, "linux") {
 			continue // files for other platforms
 		}
-		f, err := parser.ParseFile(fs.fset, filepath.Join(dir, n), src, parser.ParseComments)
+		f, err := parser.ParseFile(fs.fset, filepath.Join(dir, n), src, 0) // comments are not facts
 		if err != nil {
 			return nil, err
 		}
@@ -457,7 +457,48 @@ func collectFacts(dir string) (*factSet, error) {
 		"Program.initCancelReader", "standardRenderer.listen", "standardRenderer.start", "standardRenderer.handleMessages")
 	fs.signature("Program.Run")
 	fs.bufSize()
+	fs.lockDiscipline()
 	return fs, nil
+}
+
+// lockDiscipline: for every method of standardRenderer, in source order, the
+// mutex operations and the writes to the terminal. The renderer model treats
+// each method as ONE atomic step (write / flush / the mode methods exclude one
+// another); that is an assumption about this inventory.
+func (fs *factSet) lockDiscipline() {
+	var names []string
+	for name := range fs.funcs {
+		if strings.HasPrefix(name, "standardRenderer.") {
+			names = append(names, name)
+		}
+	}
+	sort.Strings(names)
+	for _, name := range names {
+		var ev []string
+		inDefer := map[ast.Node]bool{}
+		ast.Inspect(fs.funcs[name].Body, func(x ast.Node) bool {
+			switch v := x.(type) {
+			case *ast.DeferStmt:
+				inDefer[v.Call] = true
+			case *ast.CallExpr:
+				t := fs.text(v.Fun)
+				pre := ""
+				if inDefer[v] {
+					pre = "defer "
+				}
+				switch {
+				case strings.HasSuffix(t, "mtx.Lock"), strings.HasSuffix(t, "mtx.Unlock"):
+					ev = append(ev, pre+t[strings.LastIndex(t, ".")+1:])
+				case t == "r.out.Write", t == "r.execute", t == "io.WriteString", t == "r.flush", t == "r.buf.Reset", t == "r.buf.WriteString":
+					ev = append(ev, pre+t)
+				}
+			}
+			return true
+		})
+		if len(ev) > 0 {
+			fs.add("locks", strings.TrimPrefix(name, "standardRenderer.")+"|"+strings.Join(ev, ";"))
+		}
+	}
 }
 
 func factDefName(k string) string {
